@@ -36,6 +36,10 @@ def strategy_(g):
     c = g.pose(k, s=g.choice([s, 1.0]))
     pt = g.pose(R.POINT_OF[k], s=g.choice([s, 1.0]))
     d = g.compact_increment(k)
+    if k in ("se2", "se3") and g.choice([False, False, False, True]):
+        # two poses with bitwise-identical rotation, a pure translation apart (a translating platform)
+        n = R.PDIM[k]
+        b = {"k": k, "v": list(b["v"][:n]) + list(a["v"][n:])}
     return {"k": k, "a": a, "b": b, "c": c, "pt": pt, "d": d}
 
 
@@ -245,10 +249,11 @@ def check(case, ctx):
     arr = np.asarray(a2)
     arr[0] = arr[0] * 0.5 + 1.25
     if k == "se3":
-        arr[3:] = arr[3:] * 2.0
+        # a DIFFERENT rotation, written by plain slice assignment, then (as the library's users do) normalize()
+        arr[3:] = np.asarray(c)[3:] * 2.0
         a2.normalize()
     elif k == "se2":
-        arr[2] = -0.5 * arr[2]
+        arr[2] = -0.5 * arr[2] + 0.25
     ra2 = gs.stored(a2)
     S2 = max(S_, abs(ra2[0]))
     if _cmp_pose(ctx, "stale-after-in-place-change", "inverse after in-place change", k, a2.inverse, R.inv(k, ra2), S2, 2):
